@@ -202,8 +202,16 @@ Fixpoint canon_go (up : bool) (s : bytes) : bytes :=
 Definition canonical_key (s : bytes) : bytes :=
   if forallb is_token_char s then canon_go true s else s.
 
-Definition add_headers (prefix : bytes) (src : list header) (dest : md) : md :=
-  fold_left (fun m h => fold_left (fun m v => md_append (canonical_key (prefix ++ fst h)) [v] m) (snd h) m) src dest.
+(* dest.Add(key name, val) for every value of every header *)
+Definition add_with (keyf : bytes -> bytes) (src : list header) (dest : md) : md :=
+  fold_left (fun m h => fold_left (fun m v => md_append (keyf (fst h)) [v] m) (snd h) m) src dest.
+(* AddHeaders: dest.Add(header.Name, val); http.Header.Add canonicalises the key *)
+Definition add_headers : list header -> md -> md := add_with canonical_key.
+(* AddTrailers: dest.Add(http.TrailerPrefix + http.CanonicalHeaderKey(header.Name), val).  (Since
+   repair e7bd693 the name is canonicalised first: Add leaves a key with the prefix's colon alone.) *)
+Definition trailer_prefix : bytes := bs "Trailer:".
+Definition trailer_key (n : bytes) : bytes := canonical_key (trailer_prefix ++ canonical_key n).
+Definition add_trailers : list header -> md -> md := add_with trailer_key.
 Definition convert_to_proto_header (m : md) : list header := m.
 
 (* ====================================================================== *)
@@ -462,8 +470,8 @@ Definition run_c18_outgoing (args : list sx) : sx :=
 Definition run_c18_http (args : list sx) : sx :=
   or_bad (match args with
   | [I t; hs] => do hs <- un_listof un_header hs;
-    let p := if (t =? 0)%Z then [] else bs "Trailer:" in
-    ret (sx_headers (convert_to_proto_header (add_headers p hs [])))
+    ret (sx_headers (convert_to_proto_header
+                       (if (t =? 0)%Z then add_headers hs [] else add_trailers hs [])))
   | _ => None end).
 
 (* c18.escape: one byte -> ShouldEscapeByteInMessage *)
